@@ -111,6 +111,7 @@ def run_ops(ops):
 
         def __init__(self, cb):
             self.cb = cb
+            self.wrapped = None
 
         def plain(self, event):
             logs[self.cb["id"]].append(enc_event(event))
@@ -158,6 +159,12 @@ def run_ops(ops):
                         fn_objects[fkey] = rec
                     logs.setdefault(cb["id"], [])
                     fn = rec.coro if cb.get("async") else rec.plain
+                    if cb.get("wrap") == "partial":
+                        # a callable that is not a function object (functools.partial of the handler): no __name__/__qualname__
+                        import functools
+                        if getattr(rec, "wrapped", None) is None:
+                            rec.wrapped = functools.partial(fn)
+                        fn = rec.wrapped
                     uid = client.onevent(callback=fn, device=cb.get("device"), vector=cb.get("vector"), element=cb.get("element"),
                                          event_type=types[cb.get("type", "base")])
                     uuids[cb["id"]] = uid
@@ -179,7 +186,7 @@ def run_ops(ops):
                         if rec is None:
                             kw["callback"] = object()
                         else:
-                            kw["callback"] = rec.coro if rec.cb.get("async") else rec.plain
+                            kw["callback"] = getattr(rec, "wrapped", None) or (rec.coro if rec.cb.get("async") else rec.plain)
                     reg_ops.append(enc_op(op))
                     client.rmonevent(**kw)
                     left = {id(x.callback): x for x in client.callbacks}
@@ -321,7 +328,7 @@ def random_callback(rng, cid):
     f = lambda pool: rng.choice([None, None] + pool)  # noqa
     return {"id": cid, "device": f(DEVS + ["nope"]), "vector": f(PROPS + ["nope"]), "element": f(ELEMS + ["nope"]),
             "type": rng.choice(["base", "base", "value", "state", "definition"]), "fn": cid, "async": rng.random() < 0.25,
-            "raises": rng.random() < 0.15}
+            "raises": rng.random() < 0.15, "wrap": "partial" if rng.random() < 0.2 else None}
 
 
 def gen_c15(rng, tier):
@@ -379,7 +386,8 @@ def gen_c16(rng, tier):
     for order_ in (orders if tier == "thorough" else orders[::3] + orders[-2:]):
         ops = [["on", {"id": 0, "type": "base", "fn": 0}]]
         for i, (is_async, raises) in enumerate(order_):
-            ops.append(["on", {"id": i + 1, "type": rng.choice(["base", "value"]), "fn": i + 1, "async": is_async, "raises": raises}])
+            ops.append(["on", {"id": i + 1, "type": rng.choice(["base", "value"]), "fn": i + 1, "async": is_async, "raises": raises,
+                               "wrap": "partial" if (i + len(order_)) % 2 == 0 else None}])
         ops += [["m", def_recipe(rng, "Number", "A", "P")], ["m", set_recipe(rng, "Number", "A", "P")], ["m", set_recipe(rng, "Number", "A", "P")],
                 ["m", def_recipe(rng, "Text", "B", "Q")], ["m", set_recipe(rng, "Text", "B", "Q")], ["m", set_recipe(rng, "Number", "A", "P")]]
         yield {"op": "cli", "ops": ops, "oracles": ["C15", "C16"]}
